@@ -88,6 +88,7 @@ def run(res, tier, seed, shard, nshards):
             jobs.append(("parts", name, st, call))
             jobs.append(("timeouts", name, st, call))
             jobs.append(("eagain", name, st, call))
+            jobs.append(("nonblocking", name, st, call))
         jobs.append(("headcuts", name, st, CALLS[0]))
         jobs.append(("headcuts", name, st, CALLS[1]))
     for i in range(40 if tier == "quick" else 400):
@@ -132,6 +133,22 @@ def run(res, tier, seed, shard, nshards):
                         cuts = sorted({rng.randrange(1, n) for _ in range(3)})
                         plan = {rng.randrange(0, len(cuts) + 1): rng.randrange(1, 4) for _ in range(2)}
                         one(res, W, st, call, cuts, plan, None, (name, "timeout-rand"))
+            elif job[0] == "nonblocking":
+                # socket in non-blocking mode (timeout 0): the stream arrives in two or three instalments; a read that finds
+                # nothing raises the transport's would-block error and is simply repeated later
+                _, name, st, call = job
+                n = len(st)
+                k = 0
+                for a in range(1, n):
+                    k += 1
+                    if (k + ji) % nshards == shard:
+                        one(res, W, st, call, [a], None, None, (name, "nonblocking-1"), pauses=True)
+                for a, b in itertools.combinations(range(1, n), 2):
+                    k += 1
+                    if tier == "quick" and k % 4:
+                        continue
+                    if (k + ji) % nshards == shard:
+                        one(res, W, st, call, [a, b], None, None, (name, "nonblocking-2"), pauses=True)
             elif job[0] == "hdr-timeouts":
                 # byte-wise delivery of the first 16 bytes (header, extended length, mask key, first payload bytes), the
                 # rest in one piece; a timeout (multiplicity 1-2) before every one of those bytes, and pairs of positions
@@ -198,12 +215,14 @@ def run(res, tier, seed, shard, nshards):
                 one(res, W, st, call, None, None, sorted({rng.randrange(1, 129 + n) for _ in range(rng.choice([1, 3, 10]))}), ("long", "headcut-rand"))
 
     H.in_sim(scen, watchdog=3000)
+    if shard == 0:
+        real_tls_coalescing(res, W)
 
 
 _pred_cache = {}
 
 
-def one(res, W, stream, call, cuts, tplan, head_cuts, tag, eagain=None):
+def one(res, W, stream, call, cuts, tplan, head_cuts, tag, eagain=None, pauses=False):
     name, cf = call
     key = (stream, call)
     if key not in _pred_cache:
@@ -230,13 +249,18 @@ def one(res, W, stream, call, cuts, tplan, head_cuts, tag, eagain=None):
                     segs.append(("pause", 7.5))  # longer than the 5 s socket timeout: the caller must see one timeout and resume
                     ntimeouts += 1
                 res.count("eagain_injected")
+            if pauses and i > 0:
+                segs.append(("pause", 1.0))
             segs.append(ch)
         res.count("segmentations_run")
     else:
         res.count("head_cut_runs")
-    obs = H.run_recv_script(stream, script, segs=segs, ending="eof", head_cuts=head_cuts, timeout=5)
+    obs = H.run_recv_script(stream, script, segs=segs, ending="eof", head_cuts=head_cuts, timeout=5, nonblocking=pauses)
+    if pauses:
+        res.count("nonblocking_runs")
+        res.count("wouldblocks_observed", obs["wouldblocks"])
     issues, judged, unj = M.compare(pred, obs)
-    res.case((stream, call, tuple(cuts or ()), tuple(sorted((tplan or {}).items())), tuple(head_cuts or ()), eagain),
+    res.case((stream, call, tuple(cuts or ()), tuple(sorted((tplan or {}).items())), tuple(head_cuts or ()), eagain, pauses),
              nontrivial=bool(cuts or tplan or head_cuts))
     res.count("timeouts_injected", ntimeouts)
     res.count("timeouts_observed", obs["timeouts"])
@@ -257,3 +281,56 @@ def one(res, W, stream, call, cuts, tplan, head_cuts, tag, eagain=None):
             res.count("conservation_ok")
     if cuts and tplan:
         res.sample(case, cap=2)
+
+
+def real_tls_coalescing(res, W):
+    """Real TLS on loopback: the first frames travel in the same TLS record as the handshake response (one send), in a
+    separate record, or the record ends in the middle of a frame.  Same observations in all three shapes."""
+    import shutil
+    import time
+    from .. import realtls
+    frames = R.encode(R.TEXT, b"first") + R.encode(R.PING, b"pg") + R.encode(R.TEXT, b"second")
+    try:
+        d, P = realtls.minted("c03")
+    except Exception as e:  # noqa
+        res.notes["real_tls_coalescing"] = f"skipped: certificates could not be minted ({e})"
+        return
+    try:
+        for shape in ("separate", "coalesced", "partial"):
+            def script(srv, conn, resp, shape=shape):
+                if shape == "separate":
+                    conn.sendall(resp)
+                    time.sleep(0.2)
+                    conn.sendall(frames)
+                elif shape == "coalesced":
+                    conn.sendall(resp + frames)
+                else:
+                    conn.sendall(resp + frames[:3])
+                    time.sleep(0.2)
+                    conn.sendall(frames[3:])
+                srv.drain(conn, 1.0)
+                conn.close()
+            srv = realtls.ScriptedTLSServer(P["leaf-A-local"], script)
+            srv.start()
+            got, exc = [], None
+            try:
+                w = W.create_connection(f"wss://localhost:{srv.port}/", timeout=4, sslopt={"ca_certs": P["caA"]})
+                got.append(w.recv())
+                got.append(w.recv())
+                time.sleep(0.1)
+                w.shutdown()
+            except Exception as e:  # noqa
+                exc = e
+            srv.join(8)
+            pongs = [f.payload for f in R.decode_all(bytes(srv.client_bytes))[0] if f.opcode == R.PONG]
+            res.case(("real-tls", shape), nontrivial=True)
+            res.count("real_tls_runs")
+            case = {"tag": ("real-tls", shape), "delivery": shape}
+            if isinstance(exc, (TimeoutError, W.WebSocketTimeoutException)) and shape == "separate":
+                res.notes["real_tls_coalescing:" + shape] = "wall-clock timeout on the baseline shape: skipped"
+                return
+            if got != ["first", "second"] or pongs != [b"pg"]:
+                res.violation("segmentation-dependent:tls-record", f"real TLS, {shape} delivery: received {got}, pongs seen by the server {pongs}, exception {exc!r}",
+                              case, seg_kind="tls-record-" + shape)
+    finally:
+        shutil.rmtree(d, ignore_errors=True)
